@@ -175,7 +175,11 @@ func ReadIgnoreAnnotations(cfg *config.Config, pass *analysis.Pass) *util.Ignore
 // Example: var x int // @ignore CODE1
 func findInlineNode(file *ast.File, comment *ast.Comment, fset *token.FileSet) (start token.Pos, end token.Pos, found bool) {
 	commentPos := comment.Pos()
-	commentLine := fset.Position(commentPos).Line
+	// Physical lines of the file: a //line directive changes reported positions, not the layout of the text
+	lineOf := func(pos token.Pos) int {
+		return fset.PositionFor(pos, false).Line
+	}
+	commentLine := lineOf(commentPos)
 
 	// Binary search to find the declaration containing the comment
 	idx := sort.Search(len(file.Decls), func(i int) bool {
@@ -185,7 +189,7 @@ func findInlineNode(file *ast.File, comment *ast.Comment, fset *token.FileSet) (
 	// A comment that trails a top-level declaration ending on the same line
 	// (e.g. "var x = T{} // @ignore CODE") starts after that declaration's end,
 	// so the search above finds the following declaration (or none): it is still inline.
-	if idx > 0 && fset.Position(file.Decls[idx-1].End()).Line == commentLine {
+	if idx > 0 && lineOf(file.Decls[idx-1].End()) == commentLine {
 		if fileContent := fset.File(commentPos); fileContent != nil {
 			return fileContent.LineStart(commentLine), comment.End(), true
 		}
@@ -216,8 +220,8 @@ func findInlineNode(file *ast.File, comment *ast.Comment, fset *token.FileSet) (
 			return false
 		}
 
-		nodeEndLine := fset.Position(n.End()).Line
-		nodeStartLine := fset.Position(n.Pos()).Line
+		nodeEndLine := lineOf(n.End())
+		nodeStartLine := lineOf(n.Pos())
 
 		// Check if this node ends on the same line as the comment, or starts on it
 		// before the comment (e.g. "default: // @ignore CODE", "select { // @ignore CODE")
